@@ -94,12 +94,16 @@ func (p *Provider) Run(ctx context.Context, deps core.ProviderDeps) (err error) 
 }
 
 func (p *Provider) runFullScan(ctx context.Context) error {
+	ammoNum := uint(0)
 	for {
 		if err := ctx.Err(); err != nil {
 			if !errors.Is(err, context.Canceled) {
 				err = xerrors.Errorf("error from context: %w", err)
 			}
 			return err
+		}
+		if p.Limit != 0 && ammoNum >= p.Limit {
+			return nil
 		}
 		ammo, err := p.Decoder.Scan(ctx)
 		if err != nil {
@@ -120,6 +124,7 @@ func (p *Provider) runFullScan(ctx context.Context) error {
 			}
 			return err
 		case p.Sink <- ammo:
+			ammoNum++
 		}
 	}
 }
